@@ -11,7 +11,7 @@ const ANNO_NS: &str = "http://www.w3.org/ns/anno/";
 const ANNO_CTX: &str = "http://www.w3.org/ns/anno.jsonld";
 
 const IDS: &[&str] = &["r0", "my res", "http://ex.org/res1", "urn:x:1", "r\"q", "r\\b", "\u{e9}\u{1F600}", "ctl\u{1}x", "tab\tx", "nl\nx", "a/b#c", "cr\rx", "file:///tmp/x y"];
-const KEYS: &[&str] = &["k", "key with space", "k\"q", "k\\b", "http://purl.org/dc/terms/title", "\u{e9}", "tab\tk", "ctl\u{2}"];
+const KEYS: &[&str] = &["k", "key with space", "k\"q", "k\\b", "http://purl.org/dc/terms/title", "\u{e9}", "tab\tk", "ctl\u{2}", "http://ex.org/ns/pos", "http://ex.org/ns#label", "http://ex.org/nspace"];
 const ANNO_KEYS: &[&str] = &["motivation", "creator", "created", "generated", "generator", "purpose", "value", "type", "id", "format", "k\"q"];
 
 fn strings() -> Vec<&'static str> {
@@ -184,6 +184,8 @@ pub fn configs() -> Vec<(&'static str, WebAnnoConfig)> {
         ("default", base.clone()),
         ("prefixes", WebAnnoConfig { default_annotation_iri: "http://ex.org/anno".into(), default_set_iri: "http://ex.org/set#".into(), default_resource_iri: "http://ex.org/res/".into(), ..base.clone() }),
         ("namespaces", base.clone().with_namespace("dc".into(), "http://purl.org/dc/terms/".into()).with_namespace("ex".into(), "http://ex.org/".into())),
+        // a namespace declared without its separator, and one that is a prefix of another
+        ("namespaces-without-separator", base.clone().with_namespace("n".into(), "http://ex.org/ns".into()).with_namespace("e".into(), "http://ex.org/".into()).with_namespace("never".into(), "http://ex.org/ns/".into())),
         ("extra-context", WebAnnoConfig { extra_context: vec!["http://ex.org/ctx.jsonld".into()], ..base.clone() }),
         ("extra-context+namespaces", WebAnnoConfig { extra_context: vec!["http://ex.org/ctx.jsonld".into(), "http://ex.org/ctx2.jsonld".into()], ..base.clone() }.with_namespace("dc".into(), "http://purl.org/dc/terms/".into())),
         ("extra-target", WebAnnoConfig { extra_target_template: Some("{resource}/{begin}/{end}".into()), ..base.clone() }),
